@@ -270,6 +270,32 @@ def _flat_map(ex, st, args, dest_ty, func, where):
     return mk_it(out)
 
 
+def _chunk_by(ex, st, args, dest_ty, func, where):
+    """<[T]>::chunk_by(pred): maximal runs of consecutive elements for which pred(prev, next) holds.
+    Element j of the result exists iff position j starts a run; its value is the run as a list view."""
+    s = deep(ex, st, args[0])
+    pred = args[1]
+    if not isinstance(s, VList):
+        raise Unsupported("chunk_by on %r" % (s,))
+    n = len(s.items)
+    # boundary[j] (j >= 1): pred(items[j-1], items[j]) is false
+    same = [None] * n
+    for j in range(1, n):
+        r = pure(ex, st, j < s.len, lambda s2, j=j: apply_fn(ex, s2, pred, [VRef("val", val=s.items[j - 1]), VRef("val", val=s.items[j])], where))
+        same[j] = r.t if r is not None else z3.BoolVal(False)
+    out = []
+    for j in range(n):
+        starts = z3.And(j < s.len, z3.BoolVal(True) if j == 0 else z3.Not(same[j]))
+        # run length: 1 + number of consecutive `same` after j
+        ln = I(1)
+        alive = z3.BoolVal(True)
+        for k in range(j + 1, n):
+            alive = z3.And(alive, k < s.len, same[k])
+            ln = ln + z3.If(alive, 1, 0)
+        out.append((simp(starts), VRef("val", val=VList(s.items[j:], simp(ln), s.elem))))
+    return mk_it(out)
+
+
 # ---- consumers
 
 def _any_all(ex, st, args, dest_ty, func, where):
@@ -413,6 +439,8 @@ def install(ex):
     def A(pat, h, label):
         M.append((re.compile(pat), h, label))
     pre = r"^<" + ITER_SRC + r" as Iterator>::"
+    A(r"^core::slice::<impl \[[\w:]+\]>::chunk_by::<", _chunk_by, "<[T]>::chunk_by")
+    A(r"^<std::slice::ChunkBy<.*> as Iterator>::enumerate$", _enumerate_ad, "ChunkBy::enumerate")
     A(pre + r"map::<", _map, "Iterator::map (closure from MIR)")
     A(pre + r"filter::<", _filter, "Iterator::filter")
     A(pre + r"take_while::<", _take_while, "Iterator::take_while")
